@@ -108,6 +108,9 @@ class INIT_DATACLASS:
         inst = VRec(ex.world.models["Instance"], {"__class__": fr.env["cls"]}, ref=ex.fresh("inst", V))
         ex.assume(inst.ref != sym.NONE)
         inst.fields["__context__"] = ex.world.models["RuntimeContext"].fresh(ex, "inst_ctx!%d" % next(ex.counter))
+        # the new context's parent IS the given one (clause context_is_a_child_of_the_given_one, proved on the body): the fresh record
+        # must be able to say so (its `context` field is otherwise fixed to None by the model's default descriptor)
+        inst.fields["__context__"].fields["context"] = fr.env.get("context", VNone())
         return inst
     returns = {"context_is_a_child_of_the_given_one": "result.__context__.context is context",
                "one_level_deeper": "result.__context__.depth == %s + 1" % _DEPTH_IN,
